@@ -788,18 +788,18 @@ class World:
         if ens.strip():
             out.w('ensures\n')
             # record label regions
-            cur_label = None
+            cur_labels = []
             cur_start = None
             for line in (ens.rstrip().rstrip(',') + ',').split('\n'):
-                ml = LABEL_RE.search(line)
-                if ml and line.strip().startswith('//'):
-                    if cur_label is not None:
-                        label_spans.append((cur_label, cur_start, out.pos()))
-                    cur_label = ml.group(1)
+                found = LABEL_RE.findall(line) if line.strip().startswith('//') else []
+                if found:
+                    for cl in cur_labels:
+                        label_spans.append((cl, cur_start, out.pos()))
+                    cur_labels = found
                     cur_start = out.pos()
                 out.w(line + '\n')
-            if cur_label is not None:
-                label_spans.append((cur_label, cur_start, out.pos()))
+            for cl in cur_labels:
+                label_spans.append((cl, cur_start, out.pos()))
         if c.decreases.strip():
             out.w('decreases ' + c.decreases.strip() + '\n')
         self.counters['A1'] += 1 if variant == 'main' else 0
